@@ -378,3 +378,7 @@ if __name__ == '__main__':
     e = pytrans_sp.generate(repo, os.path.join(here, 'coq', 'Gen', 'ManagerSpGen.v'))
     if e:
         sys.stderr.write('pytrans_sp: translator refused: %s\n' % e)
+    import pytrans_vacuum
+    e = pytrans_vacuum.generate(repo, os.path.join(here, 'coq', 'Gen', 'VacuumGen.v'))
+    if e:
+        sys.stderr.write('pytrans_vacuum: translator refused: %s\n' % e)
